@@ -107,8 +107,14 @@ def _work(args):
         return out
     gb = gram.parse_grammar_text(res["grammar_before"])
     ga = gram.parse_grammar_text(res["grammar_after"])
-    if gb.conds or ga.conds:
+    if gb.conds or ga.conds or getattr(gb, "parametric", None):
         out["status"] = "parametric"
+        # full language comparison on the grammar expanded over the reachable (symbol, parameter) pairs, by docs/parametric.md
+        try:
+            gb = gram.expand_parametric(gb)
+            ga = gram.expand_parametric(ga)
+        except ValueError as ex:
+            out["note2"] = "expansion: %s" % ex
         # parametric grammars: compare the rule conditions syntactically (multiset), language comparison on the skeleton below
         cb = sorted(gb.conds.values())
         ca = sorted(ga.conds.values())
